@@ -9,9 +9,9 @@ Id(l, s, r, v) == [l |-> l, s |-> s, r |-> r, v |-> v]
 Universe == [ en |-> Id("en","","",""), enUS |-> Id("en","","US",""), enGB |-> Id("en","","GB",""),
               enLatn |-> Id("en","Latn","",""), enLatnUS |-> Id("en","Latn","US",""),
               fr |-> Id("fr","","",""), frFR |-> Id("fr","","FR",""), frCA |-> Id("fr","","CA",""),
-              de |-> Id("de","","",""), deDE1996 |-> Id("de","","DE","1996"), zhHantTW |-> Id("zh","Hant","TW","") ]
+              de |-> Id("de","","",""), deDE |-> Id("de","","DE",""), deDE1996 |-> Id("de","","DE","1996"), zhHantTW |-> Id("zh","Hant","TW","") ]
 Tag == [ en |-> "en", enUS |-> "en-US", enGB |-> "en-GB", enLatn |-> "en-Latn", enLatnUS |-> "en-Latn-US",
-         fr |-> "fr", frFR |-> "fr-FR", frCA |-> "fr-CA", de |-> "de", deDE1996 |-> "de-DE-1996", zhHantTW |-> "zh-Hant-TW",
+         fr |-> "fr", frFR |-> "fr-FR", frCA |-> "fr-CA", de |-> "de", deDE |-> "de-DE", deDE1996 |-> "de-DE-1996", zhHantTW |-> "zh-Hant-TW",
          bad |-> "!!" ]
 Names == DOMAIN Universe
 Valid(tok) == tok \in Names
